@@ -280,3 +280,13 @@ Definition fm_merge (a b : list (str * value)) : res (list (str * value)) :=
 (* replace: the values of keys the map HAS are taken from the replacement; nothing is added *)
 Definition fm_replace (m rep : list (str * value)) : list (str * value) :=
   map (fun kv => (fst kv, match fm_get (fst kv) rep with Some x => x | None => snd kv end)) m.
+
+(* ---------- strings: documented models ---------- *)
+
+(* join: the pieces with the separator between them (a split always has at least one piece) *)
+Fixpoint d_join (sep : str) (l : list str) : str :=
+  match l with
+  | [] => []
+  | [x] => x
+  | x :: r => x ++ sep ++ d_join sep r
+  end.
